@@ -1,6 +1,7 @@
 import SFV.Model.Registry
 import SFV.Model.Proto
 import SFV.Gen.SourceLoc
+import SFV.Gen.InnerPath
 open SFV SFV.Proto SFV.Registry
 
 structure DSt where
@@ -50,6 +51,24 @@ def step (d : DSt) : List String → DSt × String
       | some l, some p =>
           let paths := ((getLocs d.s p l).map (fun o => showPath (objPath d.s o))).mergeSort (· ≤ ·)
           (d, if paths.isEmpty then "-" else ";".intercalate paths)
+      | _, _ => (d, "bad-op")
+  | ["inner", mounts, parts] =>
+      -- get_inner_path: mounts `key>target;…` (parts), a path; prints whether the hypothesis of
+      -- `inner_path_uses_longest_mount` holds for the table in the code's order, and the host path
+      let ms := (mounts.splitOn ";").mapM (fun kt =>
+        match kt.splitOn ">" with
+        | [k, t] => do
+            let k ← parseParts k
+            let t ← parseParts t
+            pure (⟨k, t⟩ : InnerPath.Mount)
+        | _ => none)
+      match ms, parseParts parts with
+      | some ms, some p =>
+          let ordered := SFV.Gen.innerPathOrder ms
+          (d, s!"desc={if decide (InnerPath.Desc ordered) then 1 else 0}|" ++
+              (match InnerPath.innerPath ordered p with
+               | some q => showPath q
+               | none => "~"))
       | _, _ => (d, "bad-op")
   | ["fnew"] => ({ d with heap := [], tasks := [] }, "ok")
   | ["floc", dep, isl, t, av] =>
